@@ -809,6 +809,15 @@ class _Canon(ast.NodeTransformer):
         node.body = self._guards(node.body)
         return node
 
+    def visit_Attribute(self, node):
+        self.generic_visit(node)
+        if node.attr == "__class__" and isinstance(node.ctx, ast.Load):
+            self.changed = True
+            return ast.copy_location(ast.Call(
+                func=ast.Name("type", ast.Load()), args=[node.value],
+                keywords=[]), node)
+        return node
+
     def visit_IfExp(self, node):
         self.generic_visit(node)
         if isinstance(node.test, ast.UnaryOp) and isinstance(
@@ -1177,11 +1186,12 @@ def inline_single_use_temps(func: ast.FunctionDef) -> bool:
             if isinstance(st, ast.Assign) and len(st.targets) == 1 and \
                     isinstance(st.targets[0], ast.Name) and counts.get(
                     st.targets[0].id) == 2 and isinstance(
-                    nxt, (ast.Return, ast.Assign)) and nxt.value is not None \
+                    nxt, (ast.Return, ast.Assign, ast.Expr)) and \
+                    nxt.value is not None \
                     and not (isinstance(nxt.value, ast.Name)
                              and isinstance(nxt, ast.Return)) and \
                     _simple_context(nxt.value, st.targets[0].id) and (
-                    isinstance(nxt, ast.Return) or (
+                    isinstance(nxt, (ast.Return, ast.Expr)) or (
                         len(nxt.targets) == 1 and not any(
                             isinstance(x, ast.Name)
                             and x.id == st.targets[0].id
